@@ -620,10 +620,18 @@ class FmtStr:
         @no_type_check
         def func_help(*args, **kwargs):
             result = getattr(self.s, att)(*args, **kwargs)
-            if isinstance(result, (bytes, str)):
+            # a str answer is text: taken verbatim (fmtstr() would parse escape sequences in it)
+            if isinstance(result, str):
+                return FmtStr(Chunk(result, self.shared_atts))
+            elif isinstance(result, bytes):
                 return fmtstr(result, **self.shared_atts)
             elif isinstance(result, list):
-                return [fmtstr(x, **self.shared_atts) for x in result]
+                return [
+                    FmtStr(Chunk(x, self.shared_atts))
+                    if isinstance(x, str)
+                    else fmtstr(x, **self.shared_atts)
+                    for x in result
+                ]
             else:
                 return result
 
